@@ -87,23 +87,30 @@ def advance_rule(F, rep, blk):
 
 def zero_frames_rule(F, rep):
     b = F.body("io::slippi::de::parse_start")
-    cap_ok = False
-    wc_ok = False
-    for n in tir.walk(b["tir"]["value"]):
-        if n.get("k") == "Let" and n["pat"].get("name") == "capacity":
-            m = strip(n["init"])
-            if m.get("k") == "Match" and "skip_frames" in tir.pretty(m["scrut"]):
+    root = b["tir"]["value"]
+    lets = {n["pat"]["id"]: n for n in tir.walk(root) if n.get("k") == "Let" and n["pat"].get("k") == "Bind"}
+    wc = [n for n in tir.walk(root) if n.get("k") == "Call" and declared(n) == "frame::mutable::Frame::with_capacity"]
+    cap_ok = ver_ok = ports_ok = False
+    if len(wc) == 1:
+        a = [strip(x) for x in wc[0]["args"]]
+        cap = lets.get(a[0].get("id"))
+        if cap is not None:
+            m = strip(cap["init"])
+            if m.get("k") in ("Match", "If") and "skip_frames" in tir.pretty(m.get("scrut") or m.get("cond")):
                 vals = {}
-                for a in m["arms"]:
-                    key = a["pat"]["e"].get("v") if a["pat"].get("k") == "Lit" else "_"
-                    vals[key] = tir.lit_int(a["body"])
+                if m["k"] == "Match":
+                    for arm in m["arms"]:
+                        key = arm["pat"]["e"].get("v") if arm["pat"].get("k") == "Lit" else "_"
+                        vals[key] = tir.lit_int(arm["body"])
+                else:
+                    vals[True] = tir.lit_int(L.strip_try(m["then"]))
                 cap_ok = vals.get(True) == 0
-        if n.get("k") == "Call" and declared(n) == "frame::mutable::Frame::with_capacity":
-            a = [tir.pretty(x) for x in n["args"]]
-            wc_ok = a == ["capacity", "version", "&ports"]
-    rep.ob("zero.capacity", cap_ok and wc_ok, "io::slippi::de::parse_start", "capacity", "skip-frames must only change the capacity passed to the same Frame::with_capacity(capacity, version, &ports)")
-    txt = tir.pretty(b["tir"]["value"])
-    rep.ob("zero.same-triple", "let ports = game::port_occupancy(&start)" in txt and "let version = start.slippi.version" in txt, "io::slippi::de::parse_start", "triple", "ports and version must come from the parsed start")
+        v = lets.get(a[1].get("id"))
+        ver_ok = v is not None and (tir.place(v["init"]) or "").endswith("start.slippi.version")
+        pl = lets.get(a[2].get("id"))
+        ports_ok = pl is not None and tir.pretty(pl["init"]).startswith("game::port_occupancy(&")
+    rep.ob("zero.capacity", cap_ok, "io::slippi::de::parse_start", "capacity", "skip-frames must only change the capacity passed to Frame::with_capacity (0 instead of the default)")
+    rep.ob("zero.same-triple", ver_ok and ports_ok, "io::slippi::de::parse_start", "triple", "version and ports passed to Frame::with_capacity must come from the parsed start (start.slippi.version, port_occupancy(&start))")
     arms, m, loop = peppifmt.reader_arms(F)
     fa = arms.get("frames.arrow")
     ok = False
